@@ -1364,6 +1364,11 @@ func main() {
 		{cased, []int{0, 0}, 0, 0, 0},
 		{diff, []int{0, 0}, 0, 30, 0},
 		{[]string{"sysop", "gamma003"}, []int{0, 0}, 0, 30, 0},
+		// every letter of the alphabet in both cases: the index folds case in its hash and in its comparison
+		{[]string{"AbcdefghijkL", "aBCDEFGHIJKl"}, []int{0, 0}, 0, 6, 0},
+		{[]string{"MnopqrstuvwX", "mNOPQRSTUVWx"}, []int{0, 0}, 0, 6, 0},
+		{[]string{"Yz0123456789", "yZ0123456789"}, []int{0, 0}, 0, 6, 0},
+		{[]string{"zZzZ", "ZzZz"}, []int{0, 1}, 0, 6, 0},
 		{last, []int{0, 0}, full, 30, 0},
 		{[]string{"tri1", "TRI1", "tri2"}, []int{0, 0, 0}, 0, 60, 0},
 	}
